@@ -267,21 +267,33 @@ fn run(ctx: &mut Ctx) {
     let list = inputs(ctx);
     ctx.add("inputs", if ctx.shard == 0 { list.len() as i64 } else { 0 });
     let tier = ctx.tier;
-    for inp in &list {
-        let mut ref_key: Option<Option<RS>> = None;
+    // units = (input, renumbering); the most expensive first so that they land on different workers
+    let mut units: Vec<(usize, String, Vec<usize>)> = vec![];
+    for (k, inp) in list.iter().enumerate() {
         for (rname, p) in renumberings_for(inp, tier) {
-            if ctx.take() {
-                if ctx.want_sample() {
-                    ctx.sample(json!({"input": inp.name, "chambers": inp.s.n, "renumbering": rname}));
-                }
-                if ref_key.is_none() {
-                    ref_key = Some(if inp.corpus { reference_key(inp) } else { None });
-                }
-                let t0 = std::time::Instant::now();
-                check_unit(ctx, inp, &rname, &p, ref_key.as_ref().unwrap());
-                let fam = if inp.corpus { "corpus" } else if inp.ptc { "ptc" } else { "finite" };
-                ctx.add(&format!("cpu_us_{}", fam), t0.elapsed().as_micros() as i64);
+            units.push((k, rname, p));
+        }
+    }
+    units.sort_by_key(|(k, rname, _)| {
+        let inp = &list[*k];
+        let full = inp.corpus || rname == "identity" || !inp.ptc || tier.is_thorough();
+        std::cmp::Reverse(if full { inp.s.n * inp.s.n } else { inp.s.n })
+    });
+    let mut ref_keys: Vec<Option<Option<RS>>> = vec![None; list.len()];
+    for (k, rname, p) in units {
+        if ctx.take() {
+            let inp = &list[k];
+            if ctx.want_sample() {
+                ctx.sample(json!({"input": inp.name, "chambers": inp.s.n, "renumbering": rname}));
             }
+            if ref_keys[k].is_none() {
+                ref_keys[k] = Some(if inp.corpus { reference_key(inp) } else { None });
+            }
+            let t0 = std::time::Instant::now();
+            let rk = ref_keys[k].clone().unwrap();
+            check_unit(ctx, inp, &rname, &p, &rk);
+            let fam = if inp.corpus { "corpus" } else if inp.ptc { "ptc" } else { "finite" };
+            ctx.add(&format!("cpu_us_{}", fam), t0.elapsed().as_micros() as i64);
         }
     }
 }
